@@ -20,7 +20,7 @@ common.install(
     corpus_sel=lambda: common.corpus_entries(),
     mutant_pool=lambda: common.corpus_entries(TRAIT),
     template=getattr(templates, "minmax_chains_program", None),
-    mix=(3, 10, 7),
+    mix=(3, 13, 4),
     budgets=(2400, 48000),
     decl="noauto",
     level_text="Exploration: generated programs aimed at the minmax_chains pass are optimised with that trait only and compared with the source under clingo on generated instances (answer sets, costs).",
